@@ -185,7 +185,7 @@ func directed() []input {
 }
 
 func gen(r *hx.Rand, tier string) []json.RawMessage {
-	n, nbig := 450, 8
+	n, nbig := 350, 6
 	if tier == "thorough" {
 		n, nbig = 8000, 300
 	}
